@@ -1,2 +1,247 @@
-(* placeholder while the correspondence is being built *)
-From V Require Import Common.Num C07.Model C07.InstQ.
+(* C07 -- property theorems only.  Each is closed by [exact <lemma>] and followed by Print Assumptions.
+   Hm / Sm are Chemical.H / Chemical.S of the GENERATED model (Gen_FreeEnergy.v, Gen_InitEnergies.v)
+   instantiated over R with I ph a b = RInt (Cn ph) a b and J ph a b = RInt (fun t => Cn ph t / t) a b;
+   the mixture models are the generated Gen_MixtureModels.v.  [ref] ranges over the three reference
+   phases and [ph] over the three phases, so every statement covers all nine pairs. *)
+From V Require Import Common.Num C07.Model C07.Gen_FreeEnergy C07.Gen_InitEnergies C07.Gen_MixtureModels C07.Gen_InitData
+     C07.InstR C07.ProofsPure C07.ProofsMix C07.Proofs.
+From Coq Require Import Reals List.
+From Coquelicot Require Import Coquelicot.
+Import ListNotations.
+Open Scope R_scope.
+
+(* enthalpy is H_ref at the reference state ... *)
+Theorem C07_H_ref_zero : forall Cn Rg Hv T_ref P_ref H_ref S0 Hfus Sfus Tm Tb,
+  chem_ok Cn Hv T_ref P_ref Tm Tb -> forall ref P,
+  Hm Cn Rg Hv T_ref P_ref H_ref S0 Hfus Sfus Tm Tb ref ref T_ref P = Ok (Some H_ref).
+Proof. exact H_ref_zero_lemma. Qed.
+Print Assumptions C07_H_ref_zero.
+
+(* ... and entropy is the absolute entropy S0 *)
+Theorem C07_S_ref : forall Cn Rg Hv T_ref P_ref H_ref S0 Hfus Sfus Tm Tb,
+  chem_ok Cn Hv T_ref P_ref Tm Tb -> forall ref,
+  Sm Cn Rg Hv T_ref P_ref H_ref S0 Hfus Sfus Tm Tb ref ref T_ref P_ref = Ok (Some S0).
+Proof. exact S_ref_lemma. Qed.
+Print Assumptions C07_S_ref.
+
+(* dH/dT = Cn in every phase, for every reference phase (H is defined for every T) *)
+Theorem C07_dH_dT : forall Cn Rg Hv T_ref P_ref H_ref S0 Hfus Sfus Tm Tb,
+  chem_ok Cn Hv T_ref P_ref Tm Tb -> forall ref ph T P, 0 < T ->
+  (forall t, Hm Cn Rg Hv T_ref P_ref H_ref S0 Hfus Sfus Tm Tb ref ph t P
+             = Ok (Some (val (Hm Cn Rg Hv T_ref P_ref H_ref S0 Hfus Sfus Tm Tb ref ph t P)))) /\
+  is_derive (fun t => val (Hm Cn Rg Hv T_ref P_ref H_ref S0 Hfus Sfus Tm Tb ref ph t P)) T (Cn ph T).
+Proof. exact dH_dT_lemma. Qed.
+Print Assumptions C07_dH_dT.
+
+(* dS/dT = Cn / T *)
+Theorem C07_dS_dT : forall Cn Rg Hv T_ref P_ref H_ref S0 Hfus Sfus Tm Tb,
+  chem_ok Cn Hv T_ref P_ref Tm Tb -> forall ref ph T P, 0 < T -> 0 < P ->
+  (forall t, Sm Cn Rg Hv T_ref P_ref H_ref S0 Hfus Sfus Tm Tb ref ph t P
+             = Ok (Some (val (Sm Cn Rg Hv T_ref P_ref H_ref S0 Hfus Sfus Tm Tb ref ph t P)))) /\
+  is_derive (fun t => val (Sm Cn Rg Hv T_ref P_ref H_ref S0 Hfus Sfus Tm Tb ref ph t P)) T (Cn ph T / T).
+Proof. exact dS_dT_lemma. Qed.
+Print Assumptions C07_dS_dT.
+
+(* gas entropy falls by R ln (P2 / P1) *)
+Theorem C07_S_pressure : forall Cn Rg Hv T_ref P_ref H_ref S0 Hfus Sfus Tm Tb,
+  chem_ok Cn Hv T_ref P_ref Tm Tb -> forall ref T P1 P2, 0 < P1 -> 0 < P2 ->
+  exists s1 s2,
+    Sm Cn Rg Hv T_ref P_ref H_ref S0 Hfus Sfus Tm Tb ref Pg T P1 = Ok (Some s1) /\
+    Sm Cn Rg Hv T_ref P_ref H_ref S0 Hfus Sfus Tm Tb ref Pg T P2 = Ok (Some s2) /\
+    s2 - s1 = - Rg * ln (P2 / P1).
+Proof. exact S_pressure_lemma. Qed.
+Print Assumptions C07_S_pressure.
+
+(* solid and liquid entropy do not depend on pressure *)
+Theorem C07_S_pressure_condensed : forall Cn Rg Hv T_ref P_ref H_ref S0 Hfus Sfus Tm Tb,
+  chem_ok Cn Hv T_ref P_ref Tm Tb -> forall ref ph T P1 P2, ph <> Pg -> 0 < P1 -> 0 < P2 ->
+  exists s, Sm Cn Rg Hv T_ref P_ref H_ref S0 Hfus Sfus Tm Tb ref ph T P1 = Ok (Some s) /\
+            Sm Cn Rg Hv T_ref P_ref H_ref S0 Hfus Sfus Tm Tb ref ph T P2 = Ok (Some s).
+Proof. exact S_pressure_condensed_lemma. Qed.
+Print Assumptions C07_S_pressure_condensed.
+
+(* a non-positive pressure is rejected with ValueError (math domain error), never answered *)
+Theorem C07_S_nonpositive_pressure : forall Cn Rg Hv T_ref P_ref H_ref S0 Hfus Sfus Tm Tb,
+  chem_ok Cn Hv T_ref P_ref Tm Tb -> forall ref T P, P <= 0 ->
+  Sm Cn Rg Hv T_ref P_ref H_ref S0 Hfus Sfus Tm Tb ref Pg T P = Err EValue.
+Proof. exact S_nonpositive_pressure_lemma. Qed.
+Print Assumptions C07_S_nonpositive_pressure.
+
+(* jump at the normal boiling point: Hvap(Tb) for H, Hvap(Tb)/Tb (minus the pressure term) for S *)
+Theorem C07_jump_vap : forall Cn Rg Hv T_ref P_ref H_ref S0 Hfus Sfus Tm Tb,
+  chem_ok Cn Hv T_ref P_ref Tm Tb -> forall ref P, 0 < P ->
+  exists hg hl sg sl,
+    Hm Cn Rg Hv T_ref P_ref H_ref S0 Hfus Sfus Tm Tb ref Pg Tb P = Ok (Some hg) /\
+    Hm Cn Rg Hv T_ref P_ref H_ref S0 Hfus Sfus Tm Tb ref Pl Tb P = Ok (Some hl) /\
+    Sm Cn Rg Hv T_ref P_ref H_ref S0 Hfus Sfus Tm Tb ref Pg Tb P = Ok (Some sg) /\
+    Sm Cn Rg Hv T_ref P_ref H_ref S0 Hfus Sfus Tm Tb ref Pl Tb P = Ok (Some sl) /\
+    hg - hl = Hv Tb /\ sg - sl = Hv Tb / Tb - Rg * ln (P / P_ref).
+Proof. exact jump_vap_lemma. Qed.
+Print Assumptions C07_jump_vap.
+
+Theorem C07_jump_vap_normal_pressure : forall Cn Rg Hv T_ref P_ref H_ref S0 Hfus Sfus Tm Tb,
+  chem_ok Cn Hv T_ref P_ref Tm Tb -> forall ref,
+  exists sg sl,
+    Sm Cn Rg Hv T_ref P_ref H_ref S0 Hfus Sfus Tm Tb ref Pg Tb P_ref = Ok (Some sg) /\
+    Sm Cn Rg Hv T_ref P_ref H_ref S0 Hfus Sfus Tm Tb ref Pl Tb P_ref = Ok (Some sl) /\
+    sg - sl = Hv Tb / Tb.
+Proof. exact jump_vap_normal_lemma. Qed.
+Print Assumptions C07_jump_vap_normal_pressure.
+
+(* jump at the melting point: Hfus for H, the stored Sfus for S ... *)
+Theorem C07_jump_fus : forall Cn Rg Hv T_ref P_ref H_ref S0 Hfus Sfus Tm Tb,
+  chem_ok Cn Hv T_ref P_ref Tm Tb -> forall ref P, 0 < P ->
+  exists hl hs sl ss,
+    Hm Cn Rg Hv T_ref P_ref H_ref S0 Hfus Sfus Tm Tb ref Pl Tm P = Ok (Some hl) /\
+    Hm Cn Rg Hv T_ref P_ref H_ref S0 Hfus Sfus Tm Tb ref Ps Tm P = Ok (Some hs) /\
+    Sm Cn Rg Hv T_ref P_ref H_ref S0 Hfus Sfus Tm Tb ref Pl Tm P = Ok (Some sl) /\
+    Sm Cn Rg Hv T_ref P_ref H_ref S0 Hfus Sfus Tm Tb ref Ps Tm P = Ok (Some ss) /\
+    hl - hs = Hfus /\ sl - ss = Sfus.
+Proof. exact jump_fus_lemma. Qed.
+Print Assumptions C07_jump_fus.
+
+(* ... which is Hfus / Tm whenever Sfus is the value Chemical._init_data derives (Hfus / Tm) *)
+Theorem C07_jump_fus_entropy : forall Cn Rg Hv T_ref P_ref H_ref S0 Hfus Sfus Tm Tb,
+  chem_ok Cn Hv T_ref P_ref Tm Tb -> forall ref P, 0 < P -> Sfus = Hfus / Tm ->
+  exists sl ss,
+    Sm Cn Rg Hv T_ref P_ref H_ref S0 Hfus Sfus Tm Tb ref Pl Tm P = Ok (Some sl) /\
+    Sm Cn Rg Hv T_ref P_ref H_ref S0 Hfus Sfus Tm Tb ref Ps Tm P = Ok (Some ss) /\
+    sl - ss = Hfus / Tm.
+Proof. exact jump_fus_entropy_lemma. Qed.
+Print Assumptions C07_jump_fus_entropy.
+
+(* and Chemical._init_data does derive that value from the stored heat of fusion and melting point, whether
+   they came from the caller or from the database (generated from _chemical.py: `self._Sfus = ...`) *)
+Theorem C07_Sfus_derived : forall Rg (aH aT : option R) (Hf Tmv : R), Tmv <> 0 ->
+  init_data_Sfus (mixenvR Rg) aH aT (Some Hf) (Some Tmv) = Ok (Some (Hf / Tmv)).
+Proof. exact Sfus_derived_lemma. Qed.
+Print Assumptions C07_Sfus_derived.
+
+(* within one phase H is a state function of T: H(T2) - H(T1) = integral of Cn *)
+Theorem C07_H_difference : forall Cn Rg Hv T_ref P_ref H_ref S0 Hfus Sfus Tm Tb,
+  chem_ok Cn Hv T_ref P_ref Tm Tb -> forall ref ph T1 T2 P, 0 < T1 -> 0 < T2 ->
+  val (Hm Cn Rg Hv T_ref P_ref H_ref S0 Hfus Sfus Tm Tb ref ph T2 P)
+  - val (Hm Cn Rg Hv T_ref P_ref H_ref S0 Hfus Sfus Tm Tb ref ph T1 P) = RInt (Cn ph) T1 T2.
+Proof. exact H_difference_lemma. Qed.
+Print Assumptions C07_H_difference.
+
+(* phase-locked chemicals, for every value of phase_ref: reference values and derivatives *)
+Theorem C07_locked : forall Cn Rg Hv T_ref P_ref H_ref S0 Hfus Sfus Tm Tb,
+  chem_ok Cn Hv T_ref P_ref Tm Tb -> forall sp ref T P, 0 < T -> 0 < P ->
+  Hlocked Cn Rg Hv T_ref P_ref H_ref S0 Hfus Sfus Tm Tb sp ref T_ref P = Ok (Some H_ref) /\
+  Slocked Cn Rg Hv T_ref P_ref H_ref S0 Hfus Sfus Tm Tb sp ref T_ref P_ref = Ok (Some S0) /\
+  (forall t, Hlocked Cn Rg Hv T_ref P_ref H_ref S0 Hfus Sfus Tm Tb sp ref t P
+             = Ok (Some (val (Hlocked Cn Rg Hv T_ref P_ref H_ref S0 Hfus Sfus Tm Tb sp ref t P)))) /\
+  (forall t, Slocked Cn Rg Hv T_ref P_ref H_ref S0 Hfus Sfus Tm Tb sp ref t P
+             = Ok (Some (val (Slocked Cn Rg Hv T_ref P_ref H_ref S0 Hfus Sfus Tm Tb sp ref t P)))) /\
+  is_derive (fun t => val (Hlocked Cn Rg Hv T_ref P_ref H_ref S0 Hfus Sfus Tm Tb sp ref t P)) T (Cn sp T) /\
+  is_derive (fun t => val (Slocked Cn Rg Hv T_ref P_ref H_ref S0 Hfus Sfus Tm Tb sp ref t P)) T (Cn sp T / T).
+Proof. exact locked_lemma. Qed.
+Print Assumptions C07_locked.
+
+(* a chemical locked in the gas phase has the pressure term, whatever its phase_ref ... *)
+Theorem C07_locked_gas_pressure : forall Cn Rg Hv T_ref P_ref H_ref S0 Hfus Sfus Tm Tb,
+  chem_ok Cn Hv T_ref P_ref Tm Tb -> forall ref T P1 P2, 0 < P1 -> 0 < P2 ->
+  val (Slocked Cn Rg Hv T_ref P_ref H_ref S0 Hfus Sfus Tm Tb Pg ref T P2)
+  - val (Slocked Cn Rg Hv T_ref P_ref H_ref S0 Hfus Sfus Tm Tb Pg ref T P1) = - Rg * ln (P2 / P1).
+Proof. exact locked_gas_pressure_lemma. Qed.
+Print Assumptions C07_locked_gas_pressure.
+
+(* ... and one locked as liquid or solid never has it *)
+Theorem C07_locked_condensed_pressure : forall Cn Rg Hv T_ref P_ref H_ref S0 Hfus Sfus Tm Tb,
+  chem_ok Cn Hv T_ref P_ref Tm Tb -> forall sp ref T P1 P2, sp <> Pg -> 0 < P1 -> 0 < P2 ->
+  Slocked Cn Rg Hv T_ref P_ref H_ref S0 Hfus Sfus Tm Tb sp ref T P2
+  = Slocked Cn Rg Hv T_ref P_ref H_ref S0 Hfus Sfus Tm Tb sp ref T P1.
+Proof. exact locked_condensed_pressure_lemma. Qed.
+Print Assumptions C07_locked_condensed_pressure.
+
+(* ---------------- mixtures ---------------- *)
+
+(* mixture H is the mole-weighted sum of the pure values; hence extensive and additive:
+   H(a m + b m') = a H(m) + b H(m') *)
+Theorem C07_mix_linear : forall Rg (models : list (phase -> option R -> option R -> pyv R)) Hex hs ph m m' a b T P,
+  models_give (fun f => f ph T P) models hs -> length m = length hs -> length m' = length hs ->
+  exists h h' h2,
+    Mixture_H ROps false (IdealTPMixtureModel_call (mixenvR Rg) models) Hex ph (sparse_items ROps m) T P = Ok (Some h) /\
+    Mixture_H ROps false (IdealTPMixtureModel_call (mixenvR Rg) models) Hex ph (sparse_items ROps m') T P = Ok (Some h') /\
+    Mixture_H ROps false (IdealTPMixtureModel_call (mixenvR Rg) models) Hex ph
+              (sparse_items ROps (vaddR (vscaleR a m) (vscaleR b m'))) T P = Ok (Some h2) /\
+    h2 = a * h + b * h'.
+Proof. exact mix_linear_lemma. Qed.
+Print Assumptions C07_mix_linear.
+
+Theorem C07_mix_H_weighted_sum : forall Rg (models : list (phase -> option R -> option R -> pyv R)) Hex hs ph m T P,
+  models_give (fun f => f ph T P) models hs -> length m = length hs ->
+  Mixture_H ROps false (IdealTPMixtureModel_call (mixenvR Rg) models) Hex ph (sparse_items ROps m) T P
+  = Ok (Some (dotR m hs)).
+Proof. exact mix_H_lemma. Qed.
+Print Assumptions C07_mix_H_weighted_sum.
+
+(* same for the heat capacity (IdealTMixtureModel) *)
+Theorem C07_mix_Cn_linear : forall Rg (models : list (phase -> option R -> pyv R)) cs ph m m' a b T,
+  models_give (fun f => f ph T) models cs -> length m = length cs -> length m' = length cs ->
+  IdealTMixtureModel_call (mixenvR Rg) models ph (sparse_items ROps m) T None = Ok (Some (dotR m cs)) /\
+  IdealTMixtureModel_call (mixenvR Rg) models ph (sparse_items ROps (vaddR (vscaleR a m) (vscaleR b m'))) T None
+    = Ok (Some (a * dotR m cs + b * dotR m' cs)).
+Proof. exact mix_Cn_linear_lemma. Qed.
+Print Assumptions C07_mix_Cn_linear.
+
+(* the two single-phase models are mole-weighted sums as well *)
+Theorem C07_single_phase_T_model : forall Rg (models : list (option R -> pyv R)) hs m T P,
+  models_give (fun f => f T) models hs -> length m = length hs ->
+  SinglePhaseIdealTMixtureModel_call (mixenvR Rg) models (sparse_items ROps m) T P = Ok (Some (dotR m hs)).
+Proof. exact SP_T_model_sum. Qed.
+Print Assumptions C07_single_phase_T_model.
+Theorem C07_single_phase_TP_model : forall Rg (models : list (option R -> option R -> pyv R)) hs m T P,
+  models_give (fun f => f T P) models hs -> length m = length hs ->
+  SinglePhaseIdealTPMixtureModel_call (mixenvR Rg) models (sparse_items ROps m) T P = Ok (Some (dotR m hs)).
+Proof. exact SP_TP_model_sum. Qed.
+Print Assumptions C07_single_phase_TP_model.
+
+(* mixture entropy: the FULL statement of the property ([mix_entropy_statement], Proofs.v) is
+     S_mix - sum n_i S_i = - R sum n_i ln x_i.
+   The generated IdealEntropyModel (ideal_mixture_model.py:111) adds + n ln x without R, so the
+   statement is refuted for every R > 0 (witness: two components with n = [1; 1]) ... *)
+Theorem C07_mix_entropy_refuted : forall Rg, 0 < Rg -> ~ mix_entropy_statement Rg.
+Proof. exact mix_entropy_refuted_lemma. Qed.
+Print Assumptions C07_mix_entropy_refuted.
+
+(* ... and what does hold: the code's mixing term is + sum n_i ln x_i (the ideal term divided by -R) *)
+Theorem C07_mix_entropy_partial : forall Rg (models : list (phase -> option R -> option R -> pyv R)) Sex ss ph m T P,
+  models_give (fun f => f ph T P) models ss -> length m = length ss -> all_nonneg m -> 0 < sumR m ->
+  exists s, Mixture_S ROps false (IdealEntropyModel_call (mixenvR Rg) models) Sex ph (sparse_items ROps m) T P = Ok (Some s) /\
+            s - dotR m ss = mixterm (sumR m) m.
+Proof. exact mix_entropy_partial_lemma. Qed.
+Print Assumptions C07_mix_entropy_partial.
+
+(* "mixing at equal T and P never lowers S" ([mixing_never_lowers_S_statement]) is refuted
+   (witness: [1; 0] mixed with [0; 1]) ... *)
+Theorem C07_mixing_never_lowers_S_refuted : forall Rg, ~ mixing_never_lowers_S_statement Rg.
+Proof. exact mixing_never_lowers_S_refuted_lemma. Qed.
+Print Assumptions C07_mixing_never_lowers_S_refuted.
+
+(* ... in the code as it is, mixing never RAISES S (log-sum inequality with the inverted sign) ... *)
+Theorem C07_mixing_never_raises_S_partial : forall Rg (models : list (phase -> option R -> option R -> pyv R)) Sex ss ph m m' T P,
+  models_give (fun f => f ph T P) models ss -> length m = length ss -> length m' = length ss ->
+  all_nonneg m -> all_nonneg m' -> 0 < sumR m -> 0 < sumR m' ->
+  exists s s' s2,
+    Mixture_S ROps false (IdealEntropyModel_call (mixenvR Rg) models) Sex ph (sparse_items ROps m) T P = Ok (Some s) /\
+    Mixture_S ROps false (IdealEntropyModel_call (mixenvR Rg) models) Sex ph (sparse_items ROps m') T P = Ok (Some s') /\
+    Mixture_S ROps false (IdealEntropyModel_call (mixenvR Rg) models) Sex ph (sparse_items ROps (vaddR m m')) T P = Ok (Some s2) /\
+    s2 <= s + s'.
+Proof. exact mixing_never_raises_S_lemma. Qed.
+Print Assumptions C07_mixing_never_raises_S_partial.
+
+(* ... while the ideal mixing entropy named by the property does satisfy it (log-sum inequality) *)
+Theorem C07_ideal_mixing_never_lowers_S : forall Rg ss m m', 0 <= Rg ->
+  length m = length m' -> all_nonneg m -> all_nonneg m' -> 0 < sumR m -> 0 < sumR m' ->
+  S_ideal Rg ss m + S_ideal Rg ss m' <= S_ideal Rg ss (vaddR m m').
+Proof. exact ideal_mixing_never_lowers_S_lemma. Qed.
+Print Assumptions C07_ideal_mixing_never_lowers_S.
+
+(* non-vacuity: the hypotheses are satisfiable *)
+Example C07_chem_ok_satisfiable : chem_ok (fun _ _ => 75) (fun _ => 40650) 298 101325 273 373.
+Proof. exact chem_ok_example. Qed.
+Example C07_models_give_satisfiable :
+  models_give (fun f : phase -> option R -> option R -> pyv R => f Pl None None) [const_model 1; const_model 2] [1; 2].
+Proof. exact models_give_example. Qed.
